@@ -370,12 +370,105 @@ def g_obs(o, i, nprobe):
                                                 bl(o["domain"]), bl(o["phantom"]), glist([g if g >= 0 else 99999 for g in (o["gens"] or [])], gN))
 
 
+# ------------------------------------------------------------------ the real SIGHUP loop of cmd/application/main.go
+def cut_reload_loop(ctx):
+    """brace-match `for sig := range sigCh { ... }` out of main.go and wrap it, verbatim, into a function"""
+    src = open(os.path.join(lib.REPO, "cmd/application/main.go")).read()
+    i = src.find("for sig := range sigCh {")
+    if i < 0:
+        return None, "no `for sig := range sigCh {` in cmd/application/main.go"
+    j = src.index("{", i)
+    depth, k = 0, j
+    while k < len(src):
+        ch = src[k]
+        if ch == "{":
+            depth += 1
+        elif ch == "}":
+            depth -= 1
+            if depth == 0:
+                break
+        k += 1
+    body = src[i:k + 1]
+    imports = ['"os"', 'cj "github.com/refraction-networking/conjure/pkg/station/lib"', '"github.com/refraction-networking/conjure/pkg/station/log"']
+    if "syscall." in body:
+        imports.append('"syscall"')
+    text = ("package main\n\n// GENERATED on every run by /verif/driver/props/c19.py: the SIGHUP loop of main(), verbatim.\n"
+            "import (\n\t" + "\n\t".join(imports) + "\n)\n\n"
+            "func verifC19ReloadLoop(sigCh chan os.Signal, logger *log.Logger, regManager *cj.RegistrationManager) {\n\t"
+            + body + "\n}\n")
+    path = os.path.join(lib.BUILD, "c19_reloadcut_%d.go" % os.getpid())
+    with open(path, "w") as f:
+        f.write(text)
+    return path, body
+
+
+def run_reload_real(ctx, cases):
+    """reload sequences through the real loop; observables: covert/phantom decisions and selector generations"""
+    path, body = cut_reload_loop(ctx)
+    if path is None:
+        ctx.broken("main-cut", "the SIGHUP loop of cmd/application/main.go could not be located: %s" % body)
+        return
+    sel = [(steps, tag) for steps, tag in cases if tag.startswith("reload/")]
+    js = [{"nprobe": NPROBE, "steps": [{"cfg": cfg_json(f, ctx.rng), "sub": sub_text(s)} for f, s in steps]} for steps, _ in sel]
+    rc, out, res = ctx.go_inpkg("cmd/application", ".", {"zz_verif_driver_test.go": "c19/reload_driver_test.go", "zz_verif_reloadcut.go": path},
+                                "^TestVerifC19Reload$", js, env={"VERIF_C19_SHIPPED": os.path.join(lib.REPO, "cmd/application/app_config.toml")})
+    if os.path.exists(path) and os.environ.get("VERIF_KEEP") != "1":
+        os.remove(path)
+    if res is None or len(res) != len(sel):
+        ctx.broken("main-cut", "the SIGHUP loop cut out of main.go did not compile/run as a function of (sigCh, logger, regManager): %s" % out[-900:])
+        return
+    terms, keep = [], []
+    for (steps, tag), r in zip(sel, res):
+        ctx.count(("real-loop", repr(steps)), kind="mainloop/" + tag)
+        case = {"steps": [[list(f), list(s)] for f, s in steps]}
+        obs = r["obs"]
+        if not obs or obs[0]["stage"] != "ok":
+            continue
+        cur = (obs[0]["covert"], obs[0]["loop"], obs[0]["phantom"])
+        cur_gens = obs[0]["gens"]
+        gobs = ["(mkObs 0 0 true %s %s [] %s %s)" % (glist(obs[0]["covert"], gbool), gbool(obs[0]["loop"]), glist(obs[0]["phantom"], gbool), glist(cur_gens, gN))]
+        for i, (o, (f, s)) in enumerate(list(zip(obs, steps))[1:], start=1):
+            if o["stage"] != "ok":
+                ctx.fail("panic:reload-loop", "the SIGHUP loop of main.go panicked on reload %d: %s" % (i, o["stage"]), dict(case, step=i))
+                break
+            raw = raw_of(f)
+            loads = raw is not None and not written_bad(raw) and not any(raw[k] == "M" for k in ("cap_live", "cap_non", "workers", "public"))
+            pol = (o["covert"], o["loop"], o["phantom"])
+            if not loads:
+                if pol != cur or o["gens"] != cur_gens:
+                    ctx.fail("reload:failed-load-changed-state/%s" % ("policy" if pol != cur else "subnets"),
+                             "main.go's reload loop changed the %s in force although the new configuration does not load" % ("address policies" if pol != cur else "phantom subnets"),
+                             dict(case, step=i))
+            else:
+                cov, dom, ph = expected_decisions(raw)
+                if f[0] == "raw" and (o["covert"], o["phantom"]) != (cov, ph):
+                    ctx.fail("enforced:decision-differs", "after main.go's reload loop the policy decisions do not reflect the new lists", dict(case, step=i))
+                want = sorted(s[1]) if s[0] == "ok" else cur_gens
+                if o["gens"] != want:
+                    ctx.fail("reload:subnets-part/%s" % s[0], "after main.go's reload loop the selector holds generations %s, expected %s" % (o["gens"], want), dict(case, step=i))
+            cur, cur_gens = pol, o["gens"]
+            gobs.append("(mkObs %s %s true %s %s [] %s %s)" % (gN(0 if loads else 1), gN(0 if loads else 1), glist(o["covert"], gbool), gbool(o["loop"]),
+                                                              glist(o["phantom"], gbool), glist([g if g >= 0 else 99999 for g in o["gens"]], gN)))
+        if any(f[0] == "shipped" for f, _ in steps) and not ctx.cov.get("shipped_ok", True):
+            continue
+        terms.append("(%s, %s, %s)" % (glist(["(%s, %s)" % (g_file(f), g_sub(s)) for f, s in steps[:len(gobs)]]), gN(NPROBE), glist(gobs)))
+        keep.append((steps, r))
+    ctx.cov["main_reload_loop"] = {"sequences": len(sel), "compared": len(terms), "cut_chars": len(body)}
+    mm = ctx.coq_mismatches("mainloop", HEADER, terms, "chk_lite", shard=max(100, len(terms) // 15 + 1), need_vo=["C19/Run.vo"])
+    if mm:
+        ctx.cov["mismatches"] += len(mm)
+        i = min(mm, key=lambda j: len(keep[j][0]))
+        steps, r = keep[i]
+        ctx.broken("correspondence", "model C19.Run and the real SIGHUP loop of main.go disagree on %d reload sequences" % len(mm),
+                   {"steps": [[list(f), list(s)] for f, s in steps], "observed": r})
+
+
 def run(ctx):
     ctx.assumptions += [
         "TOML decoding (BurntSushi/toml) is represented by a record of optional keys; the driver writes real files from the same record",
         "net.ParseCIDR / regexp.Compile / time.ParseDuration are oracles: the generator knows which strings they accept (checked on every run by the outcome classes)",
         "GeoIP databases that open are not available in the sandbox: only absent, empty and non-openable paths are exercised",
-        "the SIGHUP loop of cmd/application/main.go (re-parse, call OnReload only on success) is replicated in the driver, not executed",
+        "the SIGHUP loop of cmd/application/main.go is cut textually out of main.go on every run and executed verbatim as a function (second driver); the start-up lines of main() are replicated in the drivers",
         "concurrent readers during OnReload are outside this property's model (candidate #18, C09)",
         "the Go in-package driver, the case generator and the JSON->Gallina emitter are trusted",
     ]
@@ -428,3 +521,6 @@ def run(ctx):
         steps, r = keep[i]
         ctx.broken("correspondence", "model C19.Run and the implementation disagree on %d cases; shortest has %d step(s)" % (len(mm), len(steps)),
                    {"steps": [[list(f), list(s)] for f, s in steps], "observed": r})
+    ctx.cov["shipped_ok"] = shipped_ok
+    run_reload_real(ctx, cases)
+    ctx.require_kinds(["mainloop/reload/len1", "mainloop/reload/len23", "mainloop/reload/random"])
